@@ -285,7 +285,7 @@ def run(ctx):
         for f in sorted(os.listdir(corpus)):
             if f.endswith(".json"):
                 trees.append(json.load(open(os.path.join(corpus, f)))["tree"])
-    n = ctx.scale(4000, 120000)
+    n = ctx.scale(4000, 100000)
     for i in range(n):
         pool = SMALL if ctx.rng.random() < 0.9 else SMALL + BIG
         style = ctx.rng.random()
